@@ -119,7 +119,7 @@ def check(run):
     distinct = {json.dumps([c["inb"], c["ncl"], c.get("script"), c["final"], sorted(set(c.get("feat") or []))]) for c in scases if c.get("feat")}
     distinct |= {json.dumps([c["mode"], c["scenario"], c["pre"], c["peer_pre"]]) for c in tcases}
     run.coverage.update({
-        "evaluations": len(scases) + len(tcases), "s_cases": len(scases), "s_compared_with_model": len(cmp_cases), "t_cases": len(tcases), "t_skipped_setup": len(skipped),
+        "evaluations": len(scases) + len(tcases), "s_cases": len(scases), "s_compared_with_model": len(cmp_cases), "s_truncated_runs_not_compared": len([c for c in scases if c.get("truncated")]), "t_cases": len(tcases), "t_skipped_setup": len(skipped),
         "distinct_nontrivial": len(distinct),
         "rule": "S case = (inbound events incl. peer close, Close() threads, OnData script incl. Close inside OnData, schedule) on the real instrumented stream.go; "
                 "T case = (mode, who closes / both at once / repeated / inside OnData / during OnData / data in flight to a closed stream, traffic before the close) on a real session pair; "
